@@ -31,6 +31,17 @@ CONSTS = {
 }
 
 
+# names removed from the numpy 2 main namespace (the installed numpy is 2.x): AttributeError
+REMOVED_IN_NUMPY2 = {"numpy." + n for n in (
+    "infty", "Inf", "Infinity", "NaN", "NAN", "PINF", "NINF", "PZERO", "NZERO", "float_", "complex_", "unicode_",
+    "string_", "int0", "uint0", "bool8", "object0", "product", "cumproduct", "sometrue", "alltrue", "in1d_", "round_",
+    "asfarray", "find_common_type", "cast", "source", "lookfor", "who", "mat", "row_stack", "trapz_", "issubclass_",
+    "issubsctype", "maximum_sctype", "obj2sctype", "sctype2char", "sctypes", "set_string_function", "asscalar",
+    "safe_eval", "recfromcsv", "recfromtxt", "deprecate", "deprecate_with_doc", "disp", "byte_bounds", "compat",
+    "nbytes", "DataSource", "add_docstring", "add_newdoc", "add_newdoc_ufunc", "tracemalloc_domain", "float", "int",
+    "bool", "object", "str", "long", "unicode", "complex")}
+
+
 def kind_of_dtype(dt, default="real"):
     if dt is None:
         return default
